@@ -141,15 +141,13 @@ def load(fp) -> Any:
         Python object
     """
     if HAS_ORJSON:
+        content = fp.read()
         try:
-            content = fp.read()
             return _orjson.loads(content)
         except Exception as e:
             logger.debug(f"orjson failed, falling back to stdlib json: {e}")
-            # Re-read if needed
-            if hasattr(fp, "seek"):
-                fp.seek(0)
-                content = fp.read()
+            # (what was read is the document: no rewinding - the file may not have
+            # been at its beginning)
             if isinstance(content, bytes):
                 content = content.decode("utf-8")
             return _stdlib_json.loads(content)
